@@ -165,4 +165,10 @@ def GoodTrace (dest : Path) (V : List Content) : FS → List Sys → Prop
   | _, [] => True
   | s, e :: es => GoodStep s dest V e ∧ GoodTrace dest V (exec s e) es
 
+/-- The data chunks a trace writes, in order. -/
+def writesOf (es : List Sys) : List Content :=
+  es.filterMap fun e => match e with
+    | .write _ d => some d
+    | _ => none
+
 end AGH.C14
